@@ -589,7 +589,11 @@ def execute(scn, hooks=()):
                 meth = st["m"]
                 args = [codec.dec(resolve_refs(a, res)) for a in st.get("a", ())]
                 kwargs = {k: codec.dec(resolve_refs(v, res)) for k, v in (st.get("k") or {}).items()}
-                res.extra.setdefault("args", {})[i] = (args, kwargs)
+                # what the judges see: a one-shot iterator is shown as the list of what it will yield (the call itself
+                # gets the iterator and may exhaust it)
+                shown = [list(codec.dec(resolve_refs(a, res))) if isinstance(a, dict) and "$iter" in a else x
+                         for a, x in zip(st.get("a", ()), args)]
+                res.extra.setdefault("args", {})[i] = (shown, kwargs)
                 if meth == "__getitem__":
                     fn = (lambda tg=target, a=args: tg[a[0]])
                 elif meth == "__setitem__":
